@@ -67,8 +67,23 @@ func (t Templates) ServeHTTP(w http.ResponseWriter, r *http.Request) (int, error
 		// prepare a buffer to hold the response, if applicable
 		rb := httpserver.NewResponseBuffer(buf, w, shouldBuf)
 
-		// pass request up the chain to let another middleware provide us the template
-		code, err := t.Next.ServeHTTP(rb, r)
+		// pass request up the chain to let another middleware provide us the template.
+		// What comes back is the template's source, not a response for the client:
+		// the client's preconditions and ranges do not apply to it, and it must not
+		// come in a content coding (a precompressed copy of the file) either.
+		source := r
+		for _, ext := range rule.Extensions {
+			if ext == path.Ext(fpath) {
+				source = new(http.Request)
+				*source = *r
+				source.Header = r.Header.Clone()
+				for _, h := range []string{"Accept-Encoding", "Range", "If-Range", "If-Match", "If-None-Match", "If-Modified-Since", "If-Unmodified-Since"} {
+					source.Header.Del(h)
+				}
+				break
+			}
+		}
+		code, err := t.Next.ServeHTTP(rb, source)
 		if !rb.Buffered() || code >= 300 || err != nil {
 			if rb.Buffered() && rb.Written() {
 				// the handler wrote its response (it is in our buffer),
